@@ -256,6 +256,14 @@ def main(argv=None):
     if tot["n"] == 0:
         print("HARNESS-ERROR property=%s no runs executed" % pid)
         return EXIT_HARNESS
+    if hasattr(mod, "post_run"):
+        try:
+            extra = mod.post_run(a.tier, seed)
+        except Exception:
+            print("HARNESS-ERROR property=%s post_run: %s" % (pid, traceback.format_exc()))
+            return EXIT_HARNESS
+        tot["viols"].extend(extra.get("viols", []))
+        _merge(tot["probes"], extra.get("probes", {}))
 
     # ---- violations: minimise, write replay files, match known findings
     exit_code = EXIT_OK
